@@ -195,6 +195,9 @@ func (d *DeviceRemote) UseCases() []model.UseCaseInformationDataType {
 }
 
 func (d *DeviceRemote) UpdateDevice(description *model.NetworkManagementDeviceDescriptionDataType) {
+	d.muxDevice.Lock()
+	defer d.muxDevice.Unlock()
+
 	if description != nil {
 		if description.DeviceAddress != nil && description.DeviceAddress.Device != nil {
 			d.address = description.DeviceAddress.Device
